@@ -41,7 +41,7 @@ func SelfCheck() error {
 		AdaptationField: &astits.PacketAdaptationField{
 			RandomAccessIndicator: true, HasPCR: true, PCR: &astits.ClockReference{Base: 1<<33 - 1, Extension: 299},
 			HasOPCR: true, OPCR: &astits.ClockReference{Base: 1 << 32, Extension: 1},
-			HasSplicingCountdown: true, SpliceCountdown: 0xfe,
+			HasSplicingCountdown: true, SpliceCountdown: -2,
 			HasTransportPrivateData: true, TransportPrivateData: []byte{1, 2, 3}, TransportPrivateDataLength: 3,
 			HasAdaptationExtensionField: true,
 			AdaptationExtensionField: &astits.PacketAdaptationExtensionField{HasLegalTimeWindow: true, LegalTimeWindowIsValid: true, LegalTimeWindowOffset: 0x7fff,
@@ -63,7 +63,7 @@ func SelfCheck() error {
 		return fmt.Errorf("packet self check: %v", err)
 	}
 	if q.Header != p.Header || q.AdaptationField.PCR.Base != 1<<33-1 || q.AdaptationField.PCR.Extension != 299 || q.AdaptationField.OPCR.Base != 1<<32 ||
-		q.AdaptationField.SpliceCountdown != 0xfe || !bytes.Equal(q.AdaptationField.TransportPrivateData, []byte{1, 2, 3}) ||
+		q.AdaptationField.SpliceCountdown != -2 || !bytes.Equal(q.AdaptationField.TransportPrivateData, []byte{1, 2, 3}) ||
 		q.AdaptationField.AdaptationExtensionField.PiecewiseRate != 0x3fffff || q.AdaptationField.AdaptationExtensionField.LegalTimeWindowOffset != 0x7fff ||
 		q.AdaptationField.AdaptationExtensionField.DTSNextAccessUnit.Base != 0x1_5555_5555 || q.AdaptationField.AdaptationExtensionField.SpliceType != 0xa ||
 		q.AdaptationField.StuffingLength != 7 || !bytes.Equal(q.Payload, p.Payload) {
